@@ -45,6 +45,9 @@ def plan(tier, seed):
                 continue
             for ts in ("qtilde", "q", "q0"):
                 cases.append({"kind": "analytic", "model": mn, "backend": be, "optimizer": opt, "test_stat": ts})
+    for ts in ("qtilde", "q", "q0"):
+        for be, opt in (combos[:2] if tier == "quick" else combos):
+            cases.append({"kind": "analytic", "model": "onoff", "backend": be, "optimizer": opt, "test_stat": ts, "fix_nuisance": 1.0})
     for calc in ("asymptotics", "toybased"):
         for ts in ("qtilde", "q", "q0"):
             cases.append({"kind": "layout", "calctype": calc, "test_stat": ts, "backend": "numpy"})
@@ -92,16 +95,26 @@ def analytic(case):
         bounds = m.config.suggested_bounds()
         if ts == "q":
             bounds[pidx] = (-5.0, 10.0)
+        extra = {}
+        refmdl = mdl
+        if case.get("fix_nuisance") is not None:
+            # the caller holds the nuisance constant at 1: the likelihood ratio is that of the signal-strength-only model with the same yields
+            init = m.config.suggested_init()
+            fixed = m.config.suggested_fixed()
+            init[1 - pidx] = case["fix_nuisance"]
+            fixed[1 - pidx] = True
+            extra = dict(init_pars=init, fixed_params=fixed)
+            refmdl = R.Counting("poi", s=[[mdl.s]], b=[[mdl.b * case["fix_nuisance"]]])
         # zero counts: only where every bin keeps a strictly positive expectation at the optimum (not srcr: the free background normalisation goes to 0)
         for main in datasets(mdl, zero=(mdl.kind == "poi" or (ts != "q" and mdl.kind == "onoff"))):
             data = list(main) + mdl.nominal_aux()
             for mu in (MUS if ts != "q0" else [1.0]):
                 for dist in ("normal", "clipped_normal"):
-                    ctx = dict(model=case["model"], backend=be, optimizer=opt, test_stat=ts, data=main, mu=mu, dist=dist)
-                    ref = R.hypotest_reference(mdl, mu, data, ts, clipped=(dist == "clipped_normal"))
+                    ctx = dict(model=case["model"], backend=be, optimizer=opt, test_stat=ts, data=main, mu=mu, dist=dist, fix_nuisance=case.get("fix_nuisance"))
+                    ref = R.hypotest_reference(refmdl, mu, data[: refmdl.nmain] if refmdl is not mdl else data, ts, clipped=(dist == "clipped_normal"))
                     try:
                         res = pyhf.infer.hypotest(mu, C.tens(data), m, par_bounds=bounds, test_stat=ts, calc_base_dist=dist, return_tail_probs=True,
-                                                  return_expected_set=True, return_calculator=True)
+                                                  return_expected_set=True, return_calculator=True, **extra)
                     except Exception as e:
                         issues.append(C.issue(f"C08:hypotest:{type(e).__name__}:{opt}", f"hypotest raised on a closed-form model: {e}"[:200], **ctx))
                         continue
@@ -123,7 +136,7 @@ def analytic(case):
                     if ap[pidx] != mu_a:
                         issues.append(C.issue(f"C08:asimov_poi:{ts}", f"Asimov parameters have POI {ap[pidx]!r}, expected {mu_a}", **ctx))
                     if mdl.kind != "poi":
-                        g = float(mdl.profile_nuis(mu_a, data))
+                        g = float(mdl.profile_nuis(mu_a, data)) if case.get("fix_nuisance") is None else case["fix_nuisance"]
                         nidx = 1 - pidx
                         if not abs(ap[nidx] - g) <= 2e-3 * (1 + abs(g)):
                             issues.append(C.issue(f"C08:asimov_nuisance:{ts}", f"Asimov nuisance {ap[nidx]!r}, conditional MLE at mu={mu_a} is {g!r}", **ctx))
